@@ -181,3 +181,9 @@ package io
 //@ requires validR(r)
 //@ ensures[bytes] is(r.r, *bytes.Reader) ==> result == len(r.r.in) - r.r.pos
 //@ ensures[other] !is(r.r, *bytes.Reader) ==> result == -1
+
+// A reader over a byte buffer delivers exactly that buffer, from its start.
+//@ func NewBinReaderFromBuf
+//@ assumed
+//@ pure
+//@ ensures result != nil && fresh(result) && validR(result) && result.Err == nil && result.r.pos == 0 && len(result.r.in) == len(b) && forall(i, 0, len(b), result.r.in[i] == b[i])
